@@ -151,7 +151,18 @@ func VerifH_c19_multi_db() {
 	vCmd(c, "EXPIRE", "k", "1000")
 	vAssert("first-save-ok", dss.save(vLane) == nil)
 	// second round
-	switch vChoice("change", 8) {
+	switch vChoice("change", 11) {
+	case 8:
+		// emptied key by key (unsaved), then flushed: nothing may come back
+		vCmd(c, "DEL", "k", "s")
+		vCmd(c, "FLUSHDB")
+	case 9:
+		vCmd(c, "DEL", "k", "s")
+		vCmd(c, "SELECT", "0")
+		vCmd(c, "FLUSHALL") // flushed from another database
+	case 10:
+		vCmd(c, "FLUSHDB")
+		vCmd(c, "FLUSHDB") // flushing an empty, unsaved database keeps the pending change
 	case 0:
 		vCmd(c, "FLUSHALL")
 	case 1:
